@@ -1246,6 +1246,13 @@ def cell_fns(repo):
         problems.append(f'unsafe_sync_cell.rs outside the translatable subset: {ex}')
     return out, problems
 
+def emit_gen(outdir, name, text):
+    """write gen/<name> only when its content changes (keeps make from recompiling the closure on every run), atomically"""
+    path = os.path.join(outdir, name)
+    if os.path.exists(path) and open(path).read() == text: return
+    tmp = path + '.tmp%d' % os.getpid()
+    open(tmp, 'w').write(text); os.replace(tmp, path)
+
 def main(repo, outdir):
     defs, problems = translate(repo)
     lines = ['(* GENERATED by tools/data_translate.py from /repo/src on every run - do not edit *)',
@@ -1262,19 +1269,19 @@ def main(repo, outdir):
     lines.append(f'Definition data_clean : bool := {"true" if not problems else "false"}.')
     for p in problems: lines.append(f'(* PROBLEM: {p} *)')
     os.makedirs(outdir, exist_ok=True)
-    open(os.path.join(outdir, 'DataFns.v'), 'w').write('\n'.join(lines) + '\n')
+    emit_gen(outdir, 'DataFns.v', '\n'.join(lines) + '\n')
     lf, lfp = life_fns(repo)
     ll = ['(* GENERATED by tools/data_translate.py from /repo/src on every run - do not edit *)',
           'From Coq Require Import List Bool.', 'Import ListNotations.', 'Require Import MRB.Model.Types MRB.Model.LifeM.', 'Open Scope lm_scope.', ''] + lf + [
           f'Definition life_clean : bool := {"true" if not lfp else "false"}.'] + [f'(* PROBLEM: {x} *)' for x in lfp]
-    open(os.path.join(outdir, 'LifeFns.v'), 'w').write('\n'.join(ll) + '\n')
+    emit_gen(outdir, 'LifeFns.v', '\n'.join(ll) + '\n')
     problems = problems + lfp
     cf, cfp = cell_fns(repo)
     if cfp: cf = []
     cl = ['(* GENERATED by tools/data_translate.py from /repo/src/ring_buffer/wrappers/unsafe_sync_cell.rs on every run - do not edit *)',
           'From Coq Require Import List NArith Bool.', 'Import ListNotations.', 'Require Import MRB.Model.Types MRB.Model.CellM.', 'Open Scope cm_scope.', ''] + cf + [
           f'Definition cell_clean : bool := {"true" if not cfp else "false"}.'] + [f'(* PROBLEM: {x} *)' for x in cfp]
-    open(os.path.join(outdir, 'CellFns.v'), 'w').write('\n'.join(cl) + '\n')
+    emit_gen(outdir, 'CellFns.v', '\n'.join(cl) + '\n')
     problems = problems + cfp
     sh, shp = poll_shape(repo)
     at, atp = async_table(repo)
@@ -1289,7 +1296,7 @@ def main(repo, outdir):
           'Require Import String. Open Scope string_scope.',
           'Definition async_methods : list (string * string * bool) := [' + '; '.join(f'("{f}", "{n}", {b(ok)})' for f, n, ok in at) + '].',
           f'Definition async_clean : bool := {b(not atp)}.'] + [f'(* PROBLEM: {x} *)' for x in atp]
-    open(os.path.join(outdir, 'PollGen.v'), 'w').write('\n'.join(pl) + '\n')
+    emit_gen(outdir, 'PollGen.v', '\n'.join(pl) + '\n')
     problems = problems + shp + atp
     # the same functions as compiled with --features vmem (next_chunk*, _push_slice, _extract_slice have their own bodies there)
     vdefs, vproblems = translate(repo, vmem=True)
@@ -1299,7 +1306,7 @@ def main(repo, outdir):
               'Open Scope dm_scope.', ''] + vdefs
     vlines.append(f'Definition data_clean : bool := {"true" if not vproblems else "false"}.')
     for p in vproblems: vlines.append(f'(* PROBLEM: {p} *)')
-    open(os.path.join(outdir, 'DataFnsV.v'), 'w').write('\n'.join(vlines) + '\n')
+    emit_gen(outdir, 'DataFnsV.v', '\n'.join(vlines) + '\n')
     return problems + ['vmem: ' + p for p in vproblems]
 
 if __name__ == '__main__':
